@@ -280,6 +280,8 @@ def run(run: C.Run):
     R.check_reduce_cases(run, same_extremes_cases(rng, 1500 if thorough else 300), "C02", nontrivial, grouped_fn=grouped_fn, vs_eager=True)
     # large inputs: eager / NumPy oracle only (not sent to the Coq model)
     R.check_reduce_cases(run, big_cases(rng, 250 if thorough else 40), "C02", nontrivial, grouped_fn=grouped_fn, vs_eager=True, model=False)
+    from tools.lib import fuzz as Z
+    Z.run_stream(run, rng, 2500 if thorough else 260, "C02")
     nd_batch_cases(run, rng, 1500 if thorough else 250)
     if not proofs_ok and not run.violations:
         run.violation({"property": "C02", "kind": "proof obligation no longer checks",
